@@ -97,6 +97,14 @@ M = [
     ('children', '_ImmutableTaskList.__lshift__', 'pjplan/task.py', "        for t in self:\n            t.predecessors += other\n        return other", "        for t in self:\n            t.predecessors += other\n            break\n        return other", 'every-member'),
     ('children', '_ImmutableTaskList.__rshift__', 'pjplan/task.py', "        for t in self:\n            t.successors += other\n        return other", "        for t in self:\n            t.successors = other\n        return other", 'every-member'),
     ('children', '_ImmutableTaskList.__rshift__', 'pjplan/task.py', "        for t in self:\n            t.successors += other\n        return other", "        for t in self:\n            t.successors += other\n        return self", 'returns'),
+    ('network', '__new_node', 'pjplan/alg/critical_path.py', "        res = _PNode()\n        self.__nodes.append(res)\n        return res", "        res = _PNode()\n        return res", 'node-list'),
+    ('network', '__connect', 'pjplan/alg/critical_path.py', "        start.forward_links.append(link)\n        end.backward_links.append(link)", "        end.forward_links.append(link)\n        start.backward_links.append(link)", 'forward-list'),
+    ('network', '__connect', 'pjplan/alg/critical_path.py', "        link = _PLink(units, start, end)", "        link = _PLink(units, end, start)", 'given-ends'),
+    ('network', '__add_work', 'pjplan/alg/critical_path.py', "            self.__connect(link.end, start, 0)", "            self.__connect(link.start, start, 0)", 'zero-arc'),
+    ('network', '__add_work', 'pjplan/alg/critical_path.py', "            self.__connect(link.end, start, 0)", "            self.__connect(link.end, end, 0)", 'zero-arc'),
+    ('network', '__add_work', 'pjplan/alg/critical_path.py', "        link = self.__connect(start, end, units)\n\n        self.__links[id] = link", "        link = self.__connect(start, end, 0)\n\n        self.__links[id] = link", 'work-arc'),
+    ('network', '__add_work', 'pjplan/alg/critical_path.py', "        link = self.__connect(start, end, units)\n\n        self.__links[id] = link", "        link = self.__connect(start, end, units)\n", 'work-arc'),
+    ('network', '__add_work', 'pjplan/alg/critical_path.py', "        for p in predecessors:\n            link = self.__links[p]", "        for p in predecessors[1:]:\n            link = self.__links[p]", ''),
     ('loops', '_check_loops_from_task', 'pjplan/schedule.py', "    visited_tasks.add(task.id)\n\n    for s in task.predecessors:", "    for s in task.predecessors:", 'KeyError'),
     ('loops', '_check_loops_from_task', 'pjplan/schedule.py', "    visited_tasks.remove(task.id)\n    validated.add(task.id)", "    validated.add(task.id)", 'visited-set-is-restored'),
     ('loops', '_check_loops_from_task', 'pjplan/schedule.py', "    visited_tasks.remove(task.id)\n    validated.add(task.id)", "    visited_tasks.remove(task.id)\n    validated.remove(task.id)", 'KeyError'),
